@@ -150,6 +150,12 @@ pub fn via_go(run: &'static Run) -> (u64, u64) {
                             if let Some(m) = mtg {
                                 line.push_str(&format!(" movestogo {m}"));
                             }
+                            // a move time on the same line does not lift the clock's bound
+                            if decoy == 2 && inc == 100 {
+                                line = format!("go movetime 6000000{}", &line[2..]);
+                            } else if decoy == 1 && inc == 100 {
+                                line.push_str(" movetime 6000000");
+                            }
                             line.push_str(" depth 1");
                             n.fetch_add(1, Ordering::Relaxed);
                             let case = J::obj(vec![("kind", J::s("clock-via-go")), ("overhead_ms", J::i(oh)), ("white_to_move", J::Bool(white)), ("line", J::s(line.clone()))]);
@@ -173,7 +179,7 @@ pub fn via_go(run: &'static Run) -> (u64, u64) {
                             // line says about the other side
                             // (only without a configured overhead: which layer deducts the overhead is the implementation's business)
                             match limits(white, rem, inc, mtg, oh, false) {
-                                Ok(direct) if oh == 0 && direct != (soft, hard) => {
+                                Ok(direct) if oh == 0 && !line.contains("movetime") && direct != (soft, hard) => {
                                     run.violation("go-limits-differ-from-clock", format!("go-limits-differ|{key}"), case.clone(), format!("{key}: the go command leads to limits {:?}, the mover's clock situation (remaining {rem}, increment {inc}, movestogo {mtg:?}, overhead {oh}) gives {:?}", (soft, hard), direct));
                                 }
                                 _ => {}
